@@ -149,6 +149,17 @@ func seedByName(name string) *GenomeSpec {
 		return disconnectedSeed()
 	case "evolved":
 		return evolvedSeed()
+	case "traits132":
+		// trait ids that are not an ascending run (as in the library's own test genome), nodes on non-first traits
+		g := evolvedSeed()
+		g.Traits = []TraitSpec{{1, params8(0.1)}, {3, params8(0.9)}, {2, params8(1.5)}}
+		for i := range g.Nodes {
+			g.Nodes[i].Trait = []int{1, 3, 2, 0}[i%4]
+		}
+		for i := range g.Genes {
+			g.Genes[i].Trait = []int{3, 2, 1}[i%3]
+		}
+		return g
 	}
 	return nil
 }
@@ -177,6 +188,11 @@ func fitnessOf(fit, gen, idx, n int, org *genetics.Organism) float64 {
 		return float64(org.Genotype.Extrons() + len(org.Genotype.Nodes))
 	case 7:
 		return float64(n - idx)
+	case 8: // distinct but very close values (a plateau): 1 + k*1e-5
+		if n <= 1 {
+			return 1
+		}
+		return 1 + 1e-5*float64((idx*(n-1)+gen)%n)
 	case 6:
 		if n <= 1 {
 			return float64(gen + 1)
@@ -350,24 +366,24 @@ func capturePre(pop *genetics.Population, wantChamps bool) *preEpoch {
 
 // popRun is the state of one execution of an epoch scenario.
 type popRun struct {
-	c        *Ctx
-	sc       EpochScenario
-	row      CfgRow
-	opts     *neat.Options
-	oracles  oracleSet
-	x        *Exec
-	ledger   *InnovationLedger
-	ioRoles  map[int]network.NodeNeuronType
-	everSpID map[int]bool
-	maxSpID  int
-	built    map[int]bool // species ids created by the constructor
-	turnover int
-	failed   bool
-	hash     []uint64
-	knownGeneless bool // scenario keeps single-point crossover on a random population (known finding)
-	shape    *c09Shape // set when the run is a C09 preparation-phase shape
-	keepKeys bool     // C17: keep the textual population keys for diffing
-	keys     []string
+	c             *Ctx
+	sc            EpochScenario
+	row           CfgRow
+	opts          *neat.Options
+	oracles       oracleSet
+	x             *Exec
+	ledger        *InnovationLedger
+	ioRoles       map[int]network.NodeNeuronType
+	everSpID      map[int]bool
+	maxSpID       int
+	built         map[int]bool // species ids created by the constructor
+	turnover      int
+	failed        bool
+	hash          []uint64
+	knownGeneless bool      // scenario keeps single-point crossover on a random population (known finding)
+	shape         *c09Shape // set when the run is a C09 preparation-phase shape
+	keepKeys      bool      // C17: keep the textual population keys for diffing
+	keys          []string
 	// vacuity counters of this execution (merged into the Ctx by the caller)
 	cnt map[string]int64
 }
@@ -431,8 +447,8 @@ func (h *fnv) u64(v uint64) {
 	}
 	*h = fnv(x)
 }
-func (h *fnv) i(v int)       { h.u64(uint64(int64(v))) }
-func (h *fnv) f(v float64)   { h.u64(math.Float64bits(v)) }
+func (h *fnv) i(v int)     { h.u64(uint64(int64(v))) }
+func (h *fnv) f(v float64) { h.u64(math.Float64bits(v)) }
 func (h *fnv) b(v bool) {
 	if v {
 		h.u64(1)
@@ -970,10 +986,10 @@ func (r *popRun) step(ctx context.Context, pop *genetics.Population, gen int, pr
 		if r.oracles&oLedger != 0 {
 			// the generation's record must not hold the same innovation twice
 			type ik struct {
-				node     bool
-				in, out  int
-				old      int64
-				rec      bool
+				node    bool
+				in, out int
+				old     int64
+				rec     bool
 			}
 			seen := map[ik]bool{}
 			for _, in := range pop.VInnovationsRaw() {
